@@ -38,6 +38,8 @@ pub enum Extra {
     GossipCmd(usize),
     /// a handshake request immediately followed by a shutdown request (both queued before the loop looks)
     GossipThenShutdown(usize),
+    /// the user takes the lock at every script position and every half second while delayed sends drain
+    UserLockEverywhere,
 }
 
 #[derive(Clone, Debug)]
@@ -136,8 +138,10 @@ pub struct ScOut {
 }
 
 /// One scripted scenario under the paused clock.
-pub async fn scenario(script: &[Ev], extra: Extra, out: &mut ScOut) {
-    let what = format!("script {script:?} extra {extra:?}");
+pub async fn scenario(script: &[Ev], extra_in: Extra, out: &mut ScOut) {
+    let what = format!("script {script:?} extra {extra_in:?}");
+    let everywhere = extra_in == Extra::UserLockEverywhere;
+    let extra = if everywhere { Extra::UserLock(usize::MAX) } else { extra_in };
     let seed_addr = addr(30_001);
     let peer_addr = addr(30_002);
     let shared = Arc::new(Mutex::new(Shared { mode: 0, sends: vec![], t0: Some(Instant::now()) }));
@@ -191,7 +195,7 @@ pub async fn scenario(script: &[Ev], extra: Extra, out: &mut ScOut) {
             }
         }
         if let Extra::UserLock(p) = extra {
-            if p == j {
+            if p == j || p == usize::MAX {
                 out.c.inc("user_lock_acquisitions");
                 let r = tokio::time::timeout(Duration::from_millis(1), handle.with_chitchat(|c| {
                     c.self_node_state().set("user", format!("v{j}"));
@@ -253,7 +257,22 @@ pub async fn scenario(script: &[Ev], extra: Extra, out: &mut ScOut) {
     shared.lock().unwrap().mode = 0;
     // let pending delayed sends and burst ticks drain (at most one delayed send per missed tick)
     let drain = DELAY * (script.len() as u32 + 2);
-    tokio::time::sleep(drain).await;
+    if everywhere && terminal.is_none() {
+        let mut left = drain;
+        while left > Duration::ZERO {
+            let step = Duration::from_millis(500).min(left);
+            tokio::time::sleep(step).await;
+            left -= step;
+            out.c.inc("user_lock_acquisitions");
+            let now = Instant::now() - t0;
+            if tokio::time::timeout(Duration::from_millis(1), handle.with_chitchat(|c| c.self_node_state().max_version())).await.is_err() {
+                out.findings.push(Finding::new(&["C19"], "server.user_access_blocked", format!("{what}: with_chitchat did not return at t={now:?} while delayed sends were draining (the loop holds the lock across a send)")));
+                break;
+            }
+        }
+    } else {
+        tokio::time::sleep(drain).await;
+    }
     let healthy_from = Instant::now() - t0;
     let hb0 = if terminal.is_none() { Some(hb(&handle).await) } else { None };
     tokio::time::sleep(Duration::from_secs(4)).await;
@@ -506,6 +525,9 @@ pub fn check(args: &Args) -> Outcome {
     for l in 0..=maxlen {
         for s in all_scripts(l) {
             jobs.push((s.clone(), Extra::None));
+            if s.contains(&Ev::SendDelay) {
+                jobs.push((s.clone(), Extra::UserLockEverywhere));
+            }
             for p in 0..l {
                 jobs.push((s.clone(), Extra::Shutdown(p)));
                 jobs.push((s.clone(), Extra::UserLock(p)));
